@@ -86,6 +86,8 @@ def gen(seed, tier="quick"):
             c["before"] = [["adv", r.choice([0, U, w, w - U, w // 2])]]
         if r.random() < 0.15:
             c["ext_consume"] = [r.randrange(0, 3)]      # a consumer outside these policies takes a token mid-decision
+        if r.random() < 0.15:
+            c["strategy_dur"] = [r.choice([0, U, 2 * U, 4 * U])]      # a slow strategy: time passes between the decision to retry and the grant
         if aborting and r.random() < 0.5:
             c["abort_at"] = r.randint(1, 3 * cfg["max_attempts"])     # abort_if answers True from this poll on
         calls.append(c)
